@@ -323,6 +323,8 @@ def c14Lines {w : Nat} (signed : Bool) (t : Bit.Table w) (strf : BitVec w → St
   let xs := (List.range hi).map (fun n => BitVec.ofNat w n)
   let sweep := "|".intercalate (xs.map (fun x => showStr (strf x)))
   [("strs", sweep)]
+  -- Values() observed again after the runtime helpers were called on every value: the table is immutable
+  ++ [("vals2", ",".intercalate (t.map (fun e => showBV signed e.1)))]
   -- call histories (descending sweep, through each encoder, ascending again): String() is a function of the value
   ++ hist.map (fun k => (k, sweep))
   ++ (if negs.isEmpty then [] else [("nstrs", "|".intercalate (negs.map (fun v => showStr (strf (BitVec.ofInt w v)))))])
